@@ -332,6 +332,39 @@ func init() {
 					}
 				}
 			}
+			// sparse heads and holes: the first 1..4 elements emptied, and every single element emptied (blank codes
+			// in front of a tag are written as nothing in the variable layout but read by position)
+			for _, b := range bl {
+				vals := b.vals
+				var cands [][]string
+				for head := 1; head <= 4 && head < len(vals); head++ {
+					nv := append([]string{}, vals...)
+					for j := 0; j < head; j++ {
+						nv[j] = ""
+					}
+					cands = append(cands, nv)
+				}
+				for j := range vals {
+					if vals[j] != "" {
+						cands = append(cands, setAt(vals, j, ""))
+					}
+				}
+				for _, nv := range cands {
+					if k := strings.Join(nv, "\x00"); seenSparse[k] {
+						continue
+					} else {
+						seenSparse[k] = true
+					}
+					for _, sn := range sparseNames {
+						m := samples[sn].Clone()
+						m.Tags[tt.Name] = tt.New(b.marker, nv)
+						if m.Validate() == "ok" {
+							msgs = append(msgs, m)
+							break
+						}
+					}
+				}
+			}
 			if !placed && os.Getenv("VERIF_DEBUG") != "" {
 				fmt.Fprintln(os.Stderr, "sparse tails: no valid message for", tt.Name)
 			}
@@ -425,6 +458,77 @@ func init() {
 						o.Case("prop:read-write-read", "differ:second-write-bytes", args...)
 					} else {
 						o.Case("prop:read-write-read", "same", args...)
+					}
+				}
+			}
+		}
+		// C02 on texts: fill blanks of the sample texts replaced by other white space (CR, TAB, VT, FF, NEL, NBSP) at
+		// the start and the end of every run of blanks: whatever the reader still accepts must survive
+		// write -> read in every layout
+		{
+			texts := sampleTexts()
+			for ti, tn := range sortedTextNames(texts) {
+				if !thorough && ti%3 != 0 && !strings.Contains(texts[tn], "{11") {
+					continue
+				}
+				segs := splitSegments(texts[tn])
+				for si, sg := range segs {
+					if !thorough && ti%3 != 0 && !strings.HasPrefix(sg, "{11") {
+						continue
+					}
+					var pos []int
+					fixedPos := !strings.Contains(sg, "*") && len(sg) <= 60 // a fixed-position tag: every character is tried
+					for p := 6; p < len(sg); p++ {
+						if fixedPos || p+1 == len(sg) || (sg[p] == ' ' && (sg[p+1] != ' ' || sg[p-1] != ' ')) {
+							pos = append(pos, p)
+						}
+					}
+					for _, p := range pos {
+						fills := []string{"\r", "\t", "\v", "\f", "\u0085", "\u00a0"}
+						if strings.HasPrefix(sg, "{2000}") {
+							fills = append(fills, " ", "+", "-", ".", ",", "\u0663", "\uff11", "\u2003", "\u3000", "e")
+						}
+						for _, ws := range fills {
+							for _, joiner := range []string{"\n", ""} {
+								alt := append([]string{}, segs...)
+								alt[si] = sg[:p] + ws + sg[p+1:]
+								text := strings.Join(alt, joiner)
+								first, _ := readText(text, nil)
+								if first == nil {
+									continue
+								}
+								res := "same"
+								for _, l := range layouts6 {
+									w1, _ := first.Write(l.v, l.nl)
+									if !strings.HasPrefix(w1, "ok:") {
+										res = fmt.Sprintf("differ:the accepted text cannot be written (variable=%v newline=%q)", l.v, l.nl)
+										break
+									}
+									second, _ := readText(string(unhexs(w1[3:])), first.Opts)
+									if second == nil {
+										res = fmt.Sprintf("differ:the written text cannot be read back (variable=%v newline=%q)", l.v, l.nl)
+										break
+									}
+									if msgKey(second) != msgKey(first) {
+										res = fmt.Sprintf("differ:%s (variable=%v newline=%q)", firstDiff(first, second), l.v, l.nl)
+										break
+									}
+								}
+								o.Case("prop:read-write-read", annotate(res, framingIn(first)), tn, fmt.Sprint(si), fmt.Sprint(p), ws, joiner, "white-space-fill")
+								// C19: an accepted {2000} holds exactly the amount written in the text - twelve digits, none cut, none
+								// re-interpreted
+								if strings.HasPrefix(sg, "{2000}") {
+									ar := "same"
+									body := alt[si][6:]
+									if a, has := first.Tags["Amount"]; !has {
+										ar = "differ:the text was accepted without its {2000} amount"
+									} else if got := tagByName["Amount"].Vals(a)[0]; got != body {
+										ar = fmt.Sprintf("differ:the text holds %q in {2000}, the accepted message holds the amount %q", body, got)
+									}
+									o.Case("prop:amount-as-read", ar, tn, fmt.Sprint(p), ws, joiner)
+								}
+							}
+						}
 					}
 				}
 			}
